@@ -110,6 +110,7 @@ type Runner struct {
 	Oblig    map[string]bool // which obligations are evaluated: "c03","c05","c07"
 	Deadline time.Duration
 	GoVer    string
+	RefFirst bool
 
 	refs    map[refKey][]string
 	refMu   sync.Mutex
@@ -291,6 +292,12 @@ func (r *Runner) hook(e *linter.VerifEvent) {
 		r.refMu.Unlock()
 		if !haveRef {
 			fresh = got // no reference requested for this pair: nothing is claimed
+			if r.RefFirst {
+				// determinism mode: the first observation of (checker, file) is the reference for all later ones
+				r.refMu.Lock()
+				r.refs[refKey{e.Checker, u}] = append([]string{}, got...)
+				r.refMu.Unlock()
+			}
 		}
 		gd, fd := Digest(got), Digest(fresh)
 		if !r.Oblig["c03"] {
